@@ -1,7 +1,7 @@
 (* Facts about the build-level model (Model/World, Cmdlang, Work, Build): frame property (C09),
    commands at most once (C02), truthful status lines (C20), contradiction (C17), clean (C10). *)
 From Ruler Require Import Tactics Bytes AList RuleSyntax TopoSort World Cmdlang Work Build Ops BuildSpec
-     BytesFacts.
+     BytesFacts TableFrame.
 From Coq Require Import Sorted.
 Local Open Scope nat_scope.
 
@@ -751,7 +751,9 @@ Section Facts.
   Definition joined (st2 : run_state) : join_state :=
     fold_left join_one (rs_results T st2) (mk_js T (rs_world T st2) (rs_table T st2) [] []).
 
-  Lemma build_eq (w : world) rp goal :
+  (* build, as defined: the leaves and the nodes run from the world in which main has saved what the workers
+     leave of the table (repair of F6) *)
+  Lemma build_eq0 (w : world) rp goal :
     build teqb hc hl hr w rp goal =
     match init_dir T w with
     | Err f => mk_outcome (init_dir_world_on_error T w) (VFatal f) [] []
@@ -759,7 +761,7 @@ Section Facts.
         match get_nodes T w1 rp goal with
         | Err f => mk_outcome w1 (VFatal f) [] []
         | Ok pack =>
-            let st1 := st_leaves w1 t pack in
+            let st1 := st_leaves (write_table T w1 (table_rest T hc t pack)) t pack in
             match run_nodes st1 (p_nodes pack) with
             | None =>
                 let stx := upto st1 (p_nodes pack) in
@@ -773,6 +775,54 @@ Section Facts.
         end
     end.
   Proof. reflexivity. Qed.
+
+  Lemma upto_st x ns : forall st,
+    upto (rs_st T x st) ns = rs_st T x (upto st ns).
+  Proof.
+    induction ns as [|n r IH]; intro st; cbn [upto]; [reflexivity|].
+    rewrite (run_node_st T teqb hc hl hr). destruct (run_node st n) as [st1|]; cbn [option_map]; [apply IH | reflexivity].
+  Qed.
+
+  Lemma st_leaves_st (w1 : world) x t pack :
+    st_leaves (set_tbl T w1 x) t pack = rs_st T x (st_leaves w1 t pack).
+  Proof. unfold st_leaves. rewrite <- (run_leaves_st T teqb hc). reflexivity. Qed.
+
+  (* no work step reads the table file: the run is the run from the world that init_dir left, with the saved
+     table carried along; the final write_table overwrites it, so that it shows in the outcome only when the
+     build stops on an unreadable history file *)
+  Lemma build_eq (w : world) rp goal :
+    build teqb hc hl hr w rp goal =
+    match init_dir T w with
+    | Err f => mk_outcome (init_dir_world_on_error T w) (VFatal f) [] []
+    | Ok (w1, t) =>
+        match get_nodes T w1 rp goal with
+        | Err f => mk_outcome w1 (VFatal f) [] []
+        | Ok pack =>
+            let st1 := st_leaves w1 t pack in
+            match run_nodes st1 (p_nodes pack) with
+            | None =>
+                let stx := upto st1 (p_nodes pack) in
+                mk_outcome (write_table T (rs_world T stx) (table_rest T hc t pack))
+                           (VFatal FHistory) (rs_commands T stx) []
+            | Some st2 =>
+                let js := joined st2 in
+                mk_outcome (write_table T (js_world T js) (js_table T js))
+                           (match js_errors T js with [] => VOk | es => VWorkErrors es end)
+                           (rs_commands T st2) (js_status T js)
+            end
+        end
+    end.
+  Proof.
+    rewrite build_eq0. destruct (init_dir T w) as [[w1 t]|f]; [|reflexivity].
+    destruct (get_nodes T w1 rp goal) as [pack|f]; [|reflexivity]. cbv zeta.
+    rewrite write_table_set_tbl, st_leaves_st, (run_nodes_st T teqb hc hl hr).
+    destruct (run_nodes (st_leaves w1 t pack) (p_nodes pack)) as [st2|]; cbn [option_map].
+    - unfold joined. cbn [rs_st rs_world rs_table rs_results rs_commands].
+      change (mk_js T (set_tbl T (rs_world T st2) (Some (SF_ok (table_rest T hc t pack)))) (rs_table T st2) [] [])
+        with (js_st T (Some (SF_ok (table_rest T hc t pack))) (mk_js T (rs_world T st2) (rs_table T st2) [] [])).
+      rewrite (join_all_st T teqb hr). reflexivity.
+    - rewrite upto_st. reflexivity.
+  Qed.
 
   Lemma st_leaves_world w1 t pack : rs_world T (st_leaves w1 t pack) = w1.
   Proof. unfold st_leaves. rewrite run_leaves_world. reflexivity. Qed.
@@ -1395,7 +1445,7 @@ Section Facts.
     - rewrite write_table_hist_at. unfold joined. rewrite join_all_hist_at_neq by exact Hk.
       cbn [js_world]. apply hist_at_of.
       apply run_nodes_spec in ER as (_ & _ & _ & Hh2 & _). rewrite Hh2, st_leaves_world. reflexivity.
-    - apply hist_at_of.
+    - rewrite write_table_hist_at. apply hist_at_of.
       destruct (upto_spec (p_nodes pack) (st_leaves w1 t pack)) as (_ & _ & Hh2).
       rewrite Hh2, st_leaves_world. reflexivity.
   Qed.
@@ -1412,7 +1462,7 @@ Section Facts.
     2:{ intros _. cbn [o_world]. apply Hh. }
     cbv zeta. destruct (run_nodes (st_leaves w1 t pack) (p_nodes pack)) as [st2|] eqn:ER.
     - cbn [o_verdict]. destruct (js_errors T (joined st2)); discriminate.
-    - intros _. cbn [o_world]. rewrite <- (Hh k). apply hist_at_of.
+    - intros _. cbn [o_world]. rewrite <- (Hh k), write_table_hist_at. apply hist_at_of.
       destruct (upto_spec (p_nodes pack) (st_leaves w1 t pack)) as (_ & _ & Hh2).
       rewrite Hh2, st_leaves_world. reflexivity.
   Qed.
